@@ -721,6 +721,49 @@ def check(run):
             run.mismatch("vector:" + label, "%s = %s (%s)" % (label, v, var), impl, mo)
     run.sample({"vector_case": "%s = %s" % vcases[1], "model": vout[1] if len(vout) > 1 else None})
 
+    # ------------------------------------------------------------------ 3e. absolute step numbers beyond int / double precision
+    # Valid configurations whose schedules use frequencies that are not powers of two (3, 5, 6, 7, 12), started at absolute
+    # step S in {2^31-2, 2^32-3, 2^53-2, 2^62-5} (the run crosses the boundary).  Oracles: no death, no error; and every
+    # value reported (variables, energies, biases, atom forces) equals the run started at S mod 420 + 420, which has the
+    # same residues modulo every frequency: a step number truncated to int (or rounded to double) shifts a schedule.
+    big_confs = T.BIGSTEP
+    big_S = [2**31 - 2, 2**32 - 3, 2**53 - 2, 2**62 - 5]
+    bjobs = []
+    for k, (label, conf) in enumerate(big_confs):
+        for si, S_ in enumerate(big_S):
+            if quick and (k + si + run.seed) % 2:
+                continue
+            for tag, st in (("big", S_), ("small", S_ % 420 + 420)):
+                sc = T.scenario(conf, 3, nsteps=8).replace("\nstep\n", "\nsetstep %d\nstep\n" % st, 1)
+                bjobs.append(((k, si, tag), plain, sc, os.path.join(W, "bs", "%d-%d-%s" % (k, si, tag)), "plain", 30))
+    bres = L.run_many(bjobs)
+    def strip_steps(out):
+        return [l for l in out.split("\n") if l.split(" ")[0] in ("ENERGY", "CV", "BIAS", "ATOMF", "CONFIG")] + \
+               [re.sub(r"^STEP \d+", "STEP", l) for l in out.split("\n") if l.startswith("STEP ")]
+    for (k, si, tag), rr in sorted(bres.items()):
+        if tag != "big":
+            continue
+        label = big_confs[k][0]
+        sc = [j for j in bjobs if j[0] == (k, si, tag)][0][2]
+        run.count(("bigstep", label, si), True)
+        run.dist("bigstep:%s" % label)
+        if rr["cls"] != "ok":
+            report_death("bigstep", label, str(big_S[si]), "plain", rr, sc, vclass="step-2^%d" % (31, 32, 53, 62)[si])
+            continue
+        if re.findall(r"^CONFIG err=(\S+)", rr["out"], re.M)[-1:] != ["ok"] or re.search(r"^STEP \d+ err=(?!ok)", rr["out"], re.M):
+            run.violation("bigstep:error:%s" % label, "valid configuration (%s) started at absolute step %d is rejected or reports an error at a step" % (label, big_S[si]),
+                          {"kind": "scenario", "scenario": sc})
+            continue
+        rs = bres.get((k, si, "small"))
+        if rs and rs["cls"] == "ok":
+            a_, b_ = strip_steps(rr["out"]), strip_steps(rs["out"])
+            if a_ != b_:
+                kx = next((i for i, (x_, y_) in enumerate(zip(a_, b_)) if x_ != y_), min(len(a_), len(b_)))
+                run.violation("bigstep:schedule:%s" % label, "configuration %s started at absolute step %d does not behave like the same run started at step %d "
+                              "(same residues modulo 3, 5, 6, 7, 12): %s instead of %s" % (label, big_S[si], big_S[si] % 420 + 420,
+                                                                                          a_[kx] if kx < len(a_) else "<missing>", b_[kx] if kx < len(b_) else "<missing>"),
+                              {"kind": "scenario", "scenario": sc})
+
     # ------------------------------------------------------------------ 3d. run-time paths: script commands after two steps
     rt_conf = (T.cv("x", 1, T.GRIDCV) + "harmonic {\n  name r\n  colvars x\n  centers 1.0\n  forceConstant 2.0\n}\n"
                "histogram {\n  name h\n  colvars x\n  outputFreq 2\n}\n")
